@@ -1,0 +1,136 @@
+//! Runtime-verification hooks (cargo feature `verif`, off by default).
+//!
+//! Thread-local logical-step counters with budgets. They let an external
+//! monitor decide "the parser makes progress" and "evaluation is bounded"
+//! on logical steps instead of wall-clock time. Exceeding a budget panics
+//! with a payload starting with `VERIF-BUDGET`.
+
+use std::cell::Cell;
+
+#[derive(Clone, Copy, Debug, Default)]
+pub struct Budgets {
+    /// maximum total lexer reads (0 = unlimited)
+    pub lexer_reads: u64,
+    /// maximum evaluation steps (0 = unlimited)
+    pub steps: u64,
+    /// maximum user-defined callable nesting depth (0 = unlimited)
+    pub call_depth: u64,
+    /// reads without cursor progress: `base + per_token * buffer length` (base 0 = unlimited)
+    pub stall_base: u64,
+    pub stall_per_token: u64,
+}
+
+#[derive(Clone, Copy, Debug, Default)]
+pub struct Snapshot {
+    pub lexer_reads: u64,
+    pub max_reads_since_advance: u64,
+    pub max_stall_buf_len: u64,
+    pub steps: u64,
+    pub max_call_depth: u64,
+}
+
+thread_local! {
+    static BUDGETS: Cell<Budgets> = Cell::new(Budgets::default());
+    static LEXER_READS: Cell<u64> = Cell::new(0);
+    static SINCE_ADVANCE: Cell<u64> = Cell::new(0);
+    static MAX_SINCE_ADVANCE: Cell<u64> = Cell::new(0);
+    static MAX_STALL_BUF: Cell<u64> = Cell::new(0);
+    static STEPS: Cell<u64> = Cell::new(0);
+    static CALL_DEPTH: Cell<u64> = Cell::new(0);
+    static MAX_CALL_DEPTH: Cell<u64> = Cell::new(0);
+}
+
+pub fn reset(b: Budgets) {
+    BUDGETS.with(|c| c.set(b));
+    LEXER_READS.with(|c| c.set(0));
+    SINCE_ADVANCE.with(|c| c.set(0));
+    MAX_SINCE_ADVANCE.with(|c| c.set(0));
+    MAX_STALL_BUF.with(|c| c.set(0));
+    STEPS.with(|c| c.set(0));
+    CALL_DEPTH.with(|c| c.set(0));
+    MAX_CALL_DEPTH.with(|c| c.set(0));
+}
+
+pub fn snapshot() -> Snapshot {
+    Snapshot {
+        lexer_reads: LEXER_READS.with(Cell::get),
+        max_reads_since_advance: MAX_SINCE_ADVANCE.with(Cell::get),
+        max_stall_buf_len: MAX_STALL_BUF.with(Cell::get),
+        steps: STEPS.with(Cell::get),
+        max_call_depth: MAX_CALL_DEPTH.with(Cell::get),
+    }
+}
+
+#[inline]
+pub(crate) fn lexer_read(buf_len: usize) {
+    let b = BUDGETS.with(Cell::get);
+    let n = LEXER_READS.with(|c| {
+        let n = c.get() + 1;
+        c.set(n);
+        n
+    });
+    if b.lexer_reads != 0 && n > b.lexer_reads {
+        BUDGETS.with(|c| c.set(Budgets::default()));
+        panic!("VERIF-BUDGET lexer_reads");
+    }
+    let s = SINCE_ADVANCE.with(|c| {
+        let s = c.get() + 1;
+        c.set(s);
+        s
+    });
+    if s > MAX_SINCE_ADVANCE.with(Cell::get) {
+        MAX_SINCE_ADVANCE.with(|c| c.set(s));
+        MAX_STALL_BUF.with(|c| c.set(buf_len as u64));
+    }
+    if b.stall_base != 0 && s > b.stall_base + b.stall_per_token * buf_len as u64 {
+        BUDGETS.with(|c| c.set(Budgets::default()));
+        panic!("VERIF-BUDGET parse_stall");
+    }
+}
+
+#[inline]
+pub(crate) fn lexer_advance() {
+    SINCE_ADVANCE.with(|c| c.set(0));
+}
+
+#[inline]
+pub(crate) fn step() {
+    SINCE_ADVANCE.with(|c| c.set(0));
+    let b = BUDGETS.with(Cell::get);
+    let n = STEPS.with(|c| {
+        let n = c.get() + 1;
+        c.set(n);
+        n
+    });
+    if b.steps != 0 && n > b.steps {
+        BUDGETS.with(|c| c.set(Budgets::default()));
+        panic!("VERIF-BUDGET steps");
+    }
+}
+
+pub(crate) struct CallGuard;
+
+#[inline]
+pub(crate) fn enter_call() -> CallGuard {
+    let b = BUDGETS.with(Cell::get);
+    let d = CALL_DEPTH.with(|c| {
+        let d = c.get() + 1;
+        c.set(d);
+        d
+    });
+    if d > MAX_CALL_DEPTH.with(Cell::get) {
+        MAX_CALL_DEPTH.with(|c| c.set(d));
+    }
+    if b.call_depth != 0 && d > b.call_depth {
+        BUDGETS.with(|c| c.set(Budgets::default()));
+        CALL_DEPTH.with(|c| c.set(d - 1));
+        panic!("VERIF-BUDGET call_depth");
+    }
+    CallGuard
+}
+
+impl Drop for CallGuard {
+    fn drop(&mut self) {
+        CALL_DEPTH.with(|c| c.set(c.get().saturating_sub(1)));
+    }
+}
